@@ -230,10 +230,10 @@ PostK3(f, i, o) ==
      [] f = "mpn_gcdext_hook" ->
         \* one mpn_gcd_subdiv_step (s = 0) with mpn_gcdext_hook from u0 = 0, u1 = 1 (gcdext_lehmer.c: "M = (v0, v1 ; u0, u1) ... a = u1 A (mod B),
         \* b = -u0 A (mod B)"; hook: "Must return the smallest cofactor, +u1 or -u0").
-        \* Found at the first step the gcd is one of the inputs: "d = 0 if A = G and d = 1 if B = G", "up = d ? ctx->u0 : ctx->u1": S = 1 for G = A, S = 0 for G = B
-        \* (and for A = B, the smaller cofactor).  un is the size the cofactor areas are used up to (an upper bound, normalised by the caller at the end).
+        \* Found within the first step the gcd is A, B or |A - B| ("one subtraction followed by one division"; "d = 0 if A = G and d = 1 if B = G", "up = d ? ctx->u0 : ctx->u1"):
+        \* S = 1 for G = A, 0 for G = B (and for A = B, "the smallest cofactor"), +-1 for G = |A - B|.  un is the size the cofactor areas are used up to (an upper bound, normalised by the caller at the end).
         /\ IF o.ret = 0 THEN /\ o.g = ZGcd(i.a, i.b) /\ o.gn = Limbs(o.g) /\ (i.b # "0" => ZDivides(i.b, ZSub(o.g, ZMul(o.s, i.a))))
-                              /\ o.s \in {"0", "1"} /\ (o.s = "0" <=> ZDivides(i.b, i.a))
+                              /\ o.s \in {"-1", "0", "1"} /\ (o.s = "0" <=> ZDivides(i.b, i.a))
            ELSE /\ ZDivides(i.b, ZSub(o.a, ZMul(o.u1, i.a))) /\ ZDivides(i.b, ZAdd(o.b, ZMul(o.u0, i.a)))
                 /\ ZGcd(o.a, o.b) = ZGcd(i.a, i.b) /\ Fits(o.u0, o.un) /\ Fits(o.u1, o.un) /\ o.ret = MaxL(o.a, o.b)
      [] f = "mpn_jacobi_base" ->
